@@ -442,7 +442,8 @@ class DeserializationMethodVisitor(
             additional_field = None
             for field, field_factory in zip(fields, field_factories):
                 field_method: DeserializationMethod = field_factory.method
-                fall_back_on_default = (
+                # a field without default has nothing to fall back on
+                fall_back_on_default = not field.required and (
                     field.fall_back_on_default or self.fall_back_on_default
                 )
                 if field.flattened:
